@@ -12,3 +12,5 @@ import WrglModel.Props.C10
 #print axioms Wrgl.C10_fetch_table_is_model
 #print axioms Wrgl.C10_push_table_is_model
 #print axioms Wrgl.C10_merge_ff_site
+#print axioms Wrgl.C10_flag_overrides_config
+#print axioms Wrgl.C10_explicit_ff_fast_forwards
